@@ -222,11 +222,26 @@ async def quiesce_and_probe(sim) -> None:
         ctx.violate("C09", "still_sending", "", f"after quiescence is_sending is True: {proto._context!r}")
 
     # the probe: a fresh command to a responsive device
-    if proto._pause_writing:
-        proto.resume_writing()
+    if proto._pause_writing and sim.paused and sim.paused[-1][1] is None:
+        # the episode's own pause (buffer high-water / gateway offline) was never followed by its resume: do that now
+        if getattr(sim, "mqtt", False) and not sim.tr.is_closing():
+            sim.ser.status(b"online")
+            await asyncio.sleep(0.05)  # (the transport resumes the protocol through call_soon_threadsafe)
+        else:
+            proto.resume_writing()
     frame = f"RQ --- 18:000730 01:099999 --:------ 30C9 001 0B"
-    wire = frame[:7] + sim.gid + frame[16:]
     reply = f"RP --- 01:099999 {sim.gid} --:------ 30C9 003 0B0789"
+    # ... or an exchange whose packets are fine but which the message layer cannot make sense of (a data id / payload it does not
+    # know): correlation is the sender's job and works on packets
+    odd = sim.plan.decide("probe/kind", lambda r: r.choice(["plain", "plain", "ot_unknown_id", "odd_payload"]), "plain")
+    if odd == "ot_unknown_id":
+        frame = "RQ --- 18:000730 10:099999 --:------ 3220 005 00007E0000"
+        reply = f"RP --- 10:099999 {sim.gid} --:------ 3220 005 00C07E1234"
+    elif odd == "odd_payload":
+        frame = "RQ --- 18:000730 01:099999 --:------ 2349 001 0B"
+        reply = f"RP --- 01:099999 {sim.gid} --:------ 2349 008 0B07D000FFFFFF55"
+    ctx.probe("probe_kind_" + odd)
+    wire = frame[:7] + sim.gid + frame[16:]
 
     def responder(ser, fr, nth):
         if fr.decode() == wire:
